@@ -48,8 +48,8 @@ theorem parseKey_spec (s : Bytes) (opt : Bool) (k : Kw) (rest : Bytes)
     generalize hr : s.drop name.length = r at *
     have hne1 : name ≠ [] := by
       intro e; apply hne; left; simp [e]
-    have halpha : isAlpha (name.headD 0) = true := by
-      cases hh : isAlpha (name.headD 0) with
+    have halpha : isUpper (name.headD 0) = true := by
+      cases hh : isUpper (name.headD 0) with
       | true => rfl
       | false => exact absurd (Or.inr (by rw [hh]; rfl)) hne
     by_cases h35 : r.head? = some 35
@@ -115,7 +115,7 @@ theorem isKwChar_ne (b : UInt8) (h : isKwChar b = true) :
   refine ⟨?_, ?_, ?_, ?_, ?_, ?_, ?_⟩ <;> (intro e; subst e; revert h; decide)
 
 theorem parsePattern_cases (pat : Bytes) (p : Pat) (hp : parsePattern pat = some p) :
-    (p.common = true ∧ ∃ name : Bytes, name ≠ [] ∧ name.all isKwChar = true ∧
+    (p.common = true ∧ ∃ name : Bytes, name ≠ [] ∧ name.all isKwChar = true ∧ name.any isLower = false ∧
       p.kws = [⟨42 :: name, 42 :: name, false, false⟩] ∧ pat = 42 :: name ++ qtail p.query) ∨
     (p.common = false ∧ ∃ k ks, p.kws = k :: ks ∧ (∀ k' ∈ p.kws, KwOK k') ∧
       (pat = item k ++ renderRest ks ++ qtail p.query ∨
@@ -134,16 +134,20 @@ theorem parsePattern_cases (pat : Bytes) (p : Pat) (hp : parsePattern pat = some
     · rename_i hne
       have hne1 : name ≠ [] := by intro e; apply hne; simp [e]
       split at hp
-      · rename_i ht
-        have ht : tail = [] := by simpa using ht
-        injection hp with hp; subst hp; subst ht
-        exact ⟨rfl, name, hne1, hall, rfl, by simp [qtail, ← hsplit]⟩
-      · split at hp
+      · contradiction
+      · rename_i hlow
+        have hlow : name.any isLower = false := by simpa using hlow
+        split at hp
         · rename_i ht
-          have ht : tail = [63] := by simpa using ht
+          have ht : tail = [] := by simpa using ht
           injection hp with hp; subst hp; subst ht
-          exact ⟨rfl, name, hne1, hall, rfl, by simp [qtail, ← hsplit]⟩
-        · contradiction
+          exact ⟨rfl, name, hne1, hall, hlow, rfl, by simp [qtail, ← hsplit]⟩
+        · split at hp
+          · rename_i ht
+            have ht : tail = [63] := by simpa using ht
+            injection hp with hp; subst hp; subst ht
+            exact ⟨rfl, name, hne1, hall, hlow, rfl, by simp [qtail, ← hsplit]⟩
+          · contradiction
   · right
     simp only at hp
     split at hp
@@ -203,7 +207,7 @@ theorem parsePattern_render (pat : Bytes) (p : Pat) (hp : parsePattern pat = som
 /-- a common pattern is '*' NAME '?'? -/
 theorem parsePattern_common (pat : Bytes) (p : Pat) (hp : parsePattern pat = some p)
     (hc : p.common = true) :
-    ∃ name : Bytes, name ≠ [] ∧ name.all isKwChar = true ∧
+    ∃ name : Bytes, name ≠ [] ∧ name.all isKwChar = true ∧ name.any isLower = false ∧
       p.kws = [⟨42 :: name, 42 :: name, false, false⟩] ∧ pat = 42 :: name ++ qtail p.query := by
   rcases parsePattern_cases pat p hp with ⟨_, h⟩ | ⟨h, _⟩
   · exact h
